@@ -138,7 +138,7 @@ theorem assert_exact (x : Iface) (t : Nat) :
 
 /-! ### comparability of dynamic types (the `comparable` flag `$interfaceIsEqual` / `$ifaceKeyFor` test) -/
 section Comparable
-open GV.Spec.GoTypes
+open GV.Spec.GoComparable
 
 mutual
 /-- the prelude's `typ.comparable` equals the Go rule for every type of the grid language (structural induction):
